@@ -36,8 +36,13 @@ class _Prog(nn.Module):
                     pad = 0
                 elif pad == 'none':
                     pad = 0
-                layer = Conv(op['cin'], op['cout'], op['k'], stride=op['s'], padding=pad,
-                             dilation=op['d'], groups=groups, bias=op['bias'])
+                # optional non-square kernel / per-axis dilation / padding (integer back-end tests)
+                ksz = tuple(op['kshape']) if 'kshape' in op else op['k']
+                dil = tuple(op['dshape']) if 'dshape' in op else op['d']
+                if 'pshape' in op:
+                    pad = tuple(op['pshape'])
+                layer = Conv(op['cin'], op['cout'], ksz, stride=op['s'], padding=pad,
+                             dilation=dil, groups=groups, bias=op['bias'])
                 if op.get('pit'):
                     layer = _user_pit_layer(layer, op)
                 self.add_module(op['name'], layer)
